@@ -3,7 +3,7 @@
     [convs] of the field types, any user callables, allow_unknown_fields on or off), for EVERY
     item list: any length, order, repetition, literals, unknown names.  [slot_spec], [spec_flat]
     (Run/LoopProofs.v) are comprehensions over the input - no pass, no state. *)
-From DarlingModel Require Import Run.Recv Run.RecvProofs Run.LoopProofs.
+From DarlingModel Require Import Run.Recv Run.RecvProofs Run.LoopProofs Run.LevelProofs.
 Local Open Scope list_scope.
 
 (** The declarations put every single-valued field in the "not seen" state and every
@@ -50,7 +50,23 @@ Theorem C01_order_irrelevant_across_fields :
     ps_slots st = ps_slots st' /\ ps_flat st = ps_flat st'.
 Proof. exact same_occurrences_same_state. Qed.
 
+(** When the level succeeds, field [j] holds exactly its initialiser applied to its final slot:
+    the conversion of the first item addressed to it (all of them for [multiple]); for the
+    flatten member the conversion of the unclaimed items, in order; else its type's
+    value-for-absent; else its own declared default or the same-named field of the
+    container-level default ([fi_default] after derive-time inheritance).  Nothing else in the
+    input enters. *)
+Theorem C01_field_values :
+  forall sugg sim interp_with interp_fn fields convs auk items cdef_of locate kvs,
+    parse_fields sugg sim interp_with interp_fn fields convs auk (state0 fields) items cdef_of locate = Ok kvs ->
+    exists cd, cdef_of tt = Ok cd /\
+      forall j f t, nth_error fields j = Some (f, t) ->
+        exists v, nth_error kvs j = Some (fi_ident f, v)
+                  /\ init_field interp_fn cd (final_slot sugg sim interp_with interp_fn fields convs items j f) (f, t) = Ok v.
+Proof. exact parse_fields_ok_values. Qed.
+
 Print Assumptions C01_initial_state.
+Print Assumptions C01_field_values.
 Print Assumptions C01_loop_is_field_comprehension.
 Print Assumptions C01_field_depends_only_on_own_occurrences.
 Print Assumptions C01_order_irrelevant_across_fields.
